@@ -373,8 +373,13 @@ func TestProp_Listener(t *testing.T) {
 								}
 							}
 						}
-						// binding: the proven certificate is for the claimed key
-						if err == nil && !bytes.Equal(leaf.SubjectKeyId, dec.CertificatePublicKeyPkix) {
+						// binding: on the key-ID path the signing record is "the record of that
+						// certificate key", i.e. the proven certificate must be for the claimed key.
+						// On the node-ID path the statement lets any record under the named node
+						// ID sign the nonce, so no binding to the claimed key is required there
+						// (the code is stricter when a claimed key is present; observed, not judged).
+						viaNodeID := dec.NodeId != "" && nodeIDLookup
+						if err == nil && !viaNodeID && !bytes.Equal(leaf.SubjectKeyId, dec.CertificatePublicKeyPkix) {
 							failing = append(failing, "certificate-not-for-claimed-key")
 						}
 					}
